@@ -279,6 +279,99 @@ def opus_rule(prog, run):
     run.check(sorted(seen) == [0, 1, 2, 3] and all(v == 1 for v in seen.values()), "R6", "opus codes covered", "one success exit per TOC code 0..3", "success exits cover TOC codes %s" % sorted(seen.items()))
 
 
+def adts_table_rule(prog, run, R="R8"):
+    """ADTS acceptance table (ISO/IEC 13818-7 6.2 header; the crate's documented restrictions: MPEG-4 ID, layer 0, sampling index
+    <= 12, channel configuration 1..7, header < frame_length <= bytes supplied).  The validator is tabulated by finite-domain
+    interpretation of its MIR: every header field in turn ranges over *all* its values while the others keep a valid baseline (for
+    frame_length: all 8192 values, for both header sizes), plus all supplied lengths 0..12.  For each input the outcome must be the
+    one the contract prescribes: the error kind of the violated condition, or Ok(frame[header_len..frame_length])."""
+    from .. import minieval as E
+    u = prog.lib
+    fns = [f for f in u.bodies if mir.norm(f).split("::")[-1] == "adts_to_raw" and not u.bodies[f]["in_test_cfg"]]
+    if len(fns) != 1:
+        run.bad(R, "anchor adts_to_raw", "ADTS validator not found")
+        return
+    fn_ = fns[0]
+
+    def hdr(sync=0xFFF, ID=0, layer=0, pa=1, profile=1, sfi=4, priv=0, cc=2, orig=0, home=0, cpid=0, cpst=0, fl=16, full=0x7FF, nb=0):
+        return [sync >> 4, ((sync & 0xF) << 4) | (ID << 3) | (layer << 1) | pa, (profile << 6) | (sfi << 2) | (priv << 1) | (cc >> 2),
+                ((cc & 3) << 6) | (orig << 5) | (home << 4) | (cpid << 3) | (cpst << 2) | ((fl >> 11) & 3), (fl >> 3) & 0xFF, ((fl & 7) << 5) | ((full >> 6) & 0x1F), ((full & 0x3F) << 2) | nb]
+
+    def want(f, N):
+        hl = 7 if f["pa"] else 9
+        if N < 7:
+            return ("err", "FrameTooShort")
+        if f["sync"] != 0xFFF:
+            return ("err", "MissingSyncword")
+        if f["ID"] != 0:
+            return ("err", "InvalidMpegVersion")
+        if f["layer"] != 0:
+            return ("err", "InvalidLayer")
+        if N < hl:
+            return ("err", "InvalidHeaderLength")
+        if f["sfi"] > 12:
+            return ("err", "InvalidSampleRateIndex")
+        if f["cc"] == 0:
+            return ("err", "InvalidChannelConfig")
+        if f["fl"] <= hl or f["fl"] > N:
+            return ("err", "InvalidFrameLength")
+        return ("ok", (hl, f["fl"]))
+
+    def got(f, N):
+        h = hdr(**f)
+        m = E.Machine(u)
+        m.lenient = True
+        fr = E.Bytes(dict(enumerate((h + [0xAA] * 8)[:min(N, 15)])), exact=N, tag="frame")
+        r = m.call_fn(fn_, [fr])
+        if isinstance(r, E.Adt) and r.name == "Result":
+            if r.variant == 0:
+                x = r.fields[0]
+                return ("ok", getattr(x, "range", None))
+            e = r.fields[0]
+            k = e.get("kind") if isinstance(e, E.Adt) else None
+            if isinstance(k, E.Adt) and k.name in u.adts:
+                return ("err", u.adts[k.name]["variants"][k.variant]["name"])
+        raise E.Unsupported("result outside the model: %r" % (r,))
+    base = dict(sync=0xFFF, ID=0, layer=0, pa=1, profile=1, sfi=4, priv=0, cc=2, orig=0, home=0, cpid=0, cpst=0, fl=16, full=0x7FF, nb=0)
+    domains = [("sync", [(v << 4) | 0xF for v in range(256)] + [0xFF0 | v for v in range(16)]), ("ID", range(2)), ("layer", range(4)), ("pa", range(2)), ("profile", range(4)),
+               ("sfi", range(16)), ("priv", range(2)), ("cc", range(8)), ("orig", range(2)), ("home", range(2)), ("cpid", range(2)), ("cpst", range(2)),
+               ("fl", range(8192) if getattr(run, "tier", "quick") == "thorough" else sorted(set(range(0, 64)) | {(1 << k) + d_ for k in range(3, 13) for d_ in (-1, 0, 1)} | {8191, 5461, 2730})),
+               ("full", [0, 1, 0x400, 0x7FF]), ("nb", range(4))]
+    n = 0
+    bad = {}
+    try:
+        for name, dom in domains:
+            for v in dom:
+                for pa in ((0, 1) if name == "fl" else (None,)):
+                    f = dict(base)
+                    f[name] = v
+                    if pa is not None:
+                        f["pa"] = pa
+                    N = 40
+                    g, w = got(f, N), want(f, N)
+                    n += 1
+                    if g != w and name not in bad:
+                        bad[name] = (dict((k, f[k]) for k in (name, "pa")), N, g, w)
+        for N in range(0, 13):
+            for pa in (0, 1):
+                f = dict(base)
+                f["pa"] = pa
+                f["fl"] = 10
+                g, w = got(f, N), want(f, N)
+                n += 1
+                if g != w and "len" not in bad:
+                    bad["len"] = ({"pa": pa, "fl": 10}, N, g, w)
+    except E.Unsupported as ex:
+        run.bad(R, "ADTS acceptance table", "cannot tabulate the ADTS validator (fail closed): %s" % ex, mir.loc_of(u.bodies[fn_]))
+        return
+    for name, _d in domains + [("len", None)]:
+        b_ = bad.get(name)
+        run.check(b_ is None, R, "ADTS %s" % {"len": "supplied length", "fl": "aac_frame_length", "sfi": "sampling_frequency_index", "cc": "channel_configuration", "pa": "protection_absent", "sync": "syncword"}.get(name, name),
+                  "outcome as prescribed for every value of the field",
+                  "" if b_ is None else "ADTS frame with %s, %d bytes supplied: the validator returns %s, the contract prescribes %s" % (b_[0], b_[1], b_[2], b_[3]), mir.loc_of(u.bodies[fn_]))
+    run.floor(R, n, 500, "ADTS header evaluations")
+
+
 KEYFRAME_REFERENCE = {"H264": "codec::h264::is_h264_keyframe", "H265": "codec::h265::is_hevc_keyframe"}
 
 
@@ -360,6 +453,8 @@ def keyframe_classifier_rule(prog, run):
 
 
 def check(prog, run):
+    run.rule("R8", "ADTS acceptance table: for every value of every header field (others valid) and every short length, the validator's outcome (error kind / returned payload range) is the one the contract prescribes")
+    adts_table_rule(prog, run)
     run.rule("R7", "sibling classifiers: encode_video's keyframe decision equals the codec module's public keyframe classifier as a function of the NAL header byte (all 256 values, H.264 and H.265)")
     keyframe_classifier_rule(prog, run)
     run.rule("R6", "Opus framing (RFC 6716 section 3.2): frame count and VBR flag per TOC code; code 3 reads M = byte1 & 0x3F, v = byte1 >> 7 (evaluated for all 256 values of the extracted expressions)")
